@@ -81,7 +81,7 @@ CHECKS['C01'] = {
     'technique': 'fault injection at generated/enumerated line-level landing points (Hypothesis-chosen index into a per-scenario census) with a scenario-derived outcome oracle',
     'text': 'Real workers of all six classes are run with a generated ending: own return/exception (incl. BaseException and untransferable exceptions), graceful '
             'terminate landing at the n-th traced line of the child run loop, SIGKILL/SIGTERM at the n-th line, external SIGKILL while blocked sending a 0.3-4 MB '
-            'result. After death a generated script of repeated reads must show one of the two legal shapes with an error allowed by the scenario, and never '
+            'result, a result that is slow to unpickle observed through wait(t) polling. After death a generated script of repeated reads must show one of the two legal shapes with an error allowed by the scenario, and never '
             'change, raise or block. Every landing index is enumerated for thread/process one-shot workers in the quick tier.',
     'note': 'Line granularity (not opcode); landings inside stdlib frames are represented by the calling pyworkers line; one open finding (process except-handler window).',
 }
@@ -92,7 +92,7 @@ CHECKS['C03'] = {
             'exception surfaces at that line. Oracle: terminate returns True, worker dead, outcome = terminated shape or own outcome; delivery inside the target '
             'try body requires the terminated shape and the finally marker written by the worker thread. An endless target makes a lost exception visible as '
             'terminate returning False. Idle persistent workers are terminated uninstrumented.',
-    'note': 'Line granularity; one open finding (process except-handler window, shared with C01).',
+    'note': 'Line granularity for all kinds (CPython 3.12.1 does not deliver opcode events to non-main threads reliably, see DESIGN.md 6); one open finding (process except-handler window, shared with C01).',
 }
 CHECKS['C06'] = {
     'engine': 'INJECT', 'level': 'fault_enumeration', 'design_ref': 'DESIGN.md 3.1, 4 (C06)',
@@ -100,7 +100,7 @@ CHECKS['C06'] = {
     'text': 'Persistent workers of the three kinds get 0-5 items and an ending landing at a generated line of do_work/_send_result/_cleanup/_run; the values '
             'read after death must be a prefix of the expected sequence, the stream must end (queue.Empty / iterator stops / marker or EOF on a caller-supplied pipe) '
             'and raw counters must be consecutive.',
-    'note': 'The parent-side forwarding thread of the remote kind is not traced (its landing points are sampled only by timing); one open finding (thread kind + supplied pipe).',
+    'note': 'The parent-side forwarding thread of the remote kind is held at a generated line while the child is SIGKILLed (terminate/target-exception landings there are not enumerated); one open finding (thread kind + supplied pipe).',
 }
 CHECKS['C16'] = {
     'engine': 'INJECT', 'level': 'exploration', 'design_ref': 'DESIGN.md 4 (C16)',
